@@ -33,7 +33,17 @@ func NewDisconnectMessage() *DisconnectMessage {
 
 // Decode decodes the message.
 func (m *DisconnectMessage) Decode(src []byte) (int, error) {
-	return m.header.decode(src)
+	n, err := m.header.decode(src)
+	if err != nil {
+		return n, err
+	}
+
+	// These packets consist of the two byte fixed header only.
+	if m.remlen != 0 || n != 2 {
+		return n, fmt.Errorf("%s/Decode: Invalid remaining length. Expecting 0 in one byte", m.Name())
+	}
+
+	return n, nil
 }
 
 // Encode encodes the message.
